@@ -165,12 +165,21 @@ def run_case(case):
         ec_pub = Curve.decodePoint(bytearray(b"\x05" + pub), 0)
         req = WARequest.__new__(WARequest)   # encryptParams uses no instance state
         blobs = []
+        import random as _random
         for _ in range(2):
+            # "fresh" must not rest on the state of the process-wide random module, which applications and test frameworks
+            # re-seed at will: with `reseed` both requests start from the same state of it
+            _state = _random.getstate()
+            if case.get("reseed") is not None:
+                _random.seed(case["reseed"])
+                out.label("process_wide_random_reseeded_before_each_request")
             try:
                 res = req.encryptParams(params, ec_pub)
             except Exception as e:
+                _random.setstate(_state)
                 out.fail("enc", "enc:raises:%s" % type(e).__name__, {"error": repr(e)})
                 return out
+            _random.setstate(_state)
             if not (isinstance(res, list) and len(res) == 1 and res[0][0] == "ENC"):
                 out.fail("enc", "enc:shape", {"got": repr(res)[:200]})
                 return out
@@ -409,9 +418,10 @@ def plan(tier):
     digits = st.text(alphabet="0123456789", min_size=1, max_size=20)
     token = st.one_of(digits, digits, _uni.filter(lambda s: len(s) > 0), _special.filter(lambda s: len(s) > 0)).map(
         lambda s: {"sub": "token", "number": s})
-    params = st.builds(lambda ps, r: {"sub": "params", "params": [[n, v] for n, v in ps], "recipient": r.hex()},
+    params = st.builds(lambda ps, r, rs: dict({"sub": "params", "params": [[n, v] for n, v in ps], "recipient": r.hex()},
+                                              **({"reseed": rs} if rs is not None else {})),
                        st.lists(st.tuples(_name, _value), min_size=0, max_size=12),
-                       st.binary(min_size=32, max_size=32))
+                       st.binary(min_size=32, max_size=32), st.one_of(st.none(), st.none(), st.integers(0, 2 ** 32 - 1)))
     _edge = st.builds(lambda a, core, b: a + core + b, st.sampled_from(["", " ", "\t", "\n", "\r", "\x0b", "\x0c"]),
                       st.binary(min_size=0, max_size=18).map(lambda x: x.decode("latin-1")), st.sampled_from(["", " ", "\t", "\n", "\r"]))
     idb_st = st.one_of(st.none(), st.binary(min_size=20, max_size=20).map(lambda b: b.hex()),
@@ -440,3 +450,4 @@ def plan(tier):
     }
 
 RULE += (" The request is also sent with the library's logger at DEBUG; the parameters held by the request object are compared with a snapshot taken before sending.")
+RULE += (" In a third of the parameter cases the process-wide random module is re-seeded to the same value before each of the two encryptions; the ephemeral keys must still differ.")
